@@ -124,7 +124,8 @@ class Local(Backend):
     def _find_deletable(self, start):
         with os.scandir(start) as it:
             for entry in it:
-                if entry.is_dir():
+                # A link to a directory is not ours to remove (and rmdir would fail on it)
+                if entry.is_dir(follow_symlinks=False):
                     empty = True
                     for subentry, subempty in self._find_deletable(entry.path):
                         yield subentry, subempty
